@@ -267,6 +267,8 @@ func runC01(c *Check) {
 	}
 	c.ruleResetEmptiesRequestState("R9")
 	c.ruleConstIndexGuarded("R10", "spynode", "handlers", "state")
+	c.ruleEmptyMeansAllEmpty("R11")
+	c.ruleBenignSentinelsHandled("R12")
 }
 
 func containsBefore(in ssa.Instruction, set []ssa.Instruction) bool {
@@ -598,6 +600,23 @@ func runC08(c *Check) {
 	c.ruleCanonOnEveryPath("R3")
 	c.ruleContractScanContinues("R6")
 	c.ruleSubscribeAddsEach("R7", fHashes)
+	isParam := func(name string, idx int) func(fnKey string) func(ssa.Value) bool {
+		return func(fnKey string) func(ssa.Value) bool {
+			return func(v ssa.Value) bool {
+				fn := c.P.Fn(fnKey)
+				if fn == nil {
+					return false
+				}
+				p := paramAt(fn, name, idx)
+				return p != nil && stripConv(v) == ssa.Value(p)
+			}
+		}
+	}
+	for _, fk := range []string{"spynode.(*Node).SubscribePushDatas", "spynode.(*Node).UnsubscribePushDatas"} {
+		c.ruleLoopVisitsAll("R8", fk, isParam("pushDatas", 2)(fk), "listed-push-data",
+			"the loop over the listed push datas can be left early without an error: the entries after that point are not (un)subscribed although the call reports success")
+	}
+	c.ruleSpliceRemovesOne("R9", 1, "spynode")
 
 	// ---- R4 who may write
 	nW := 0
